@@ -155,7 +155,7 @@ func (t *tfunc) intIndex(e ast.Expr) string {
 	b := basicOf(typeOf(t.pi, e))
 	s := t.expr(e, types.Typ[types.Int])
 	if b != nil && b.Info()&types.IsUnsigned != 0 {
-		return "Int.ofNat " + paren(s)
+		return "(" + s + " : Int)"
 	}
 	return s
 }
@@ -250,6 +250,9 @@ func (t *tfunc) expr(e ast.Expr, want types.Type) string {
 			t.bad(e, "nil of an opaque type")
 		case *types.Var:
 			if o == t.recvObj {
+				if op := t.okey["(self)"]; op != nil {
+					return t.use(op.name)
+				}
 				t.bad(e, "the receiver as a value")
 			}
 			if _, isElem := t.elem[o]; isElem {
@@ -455,7 +458,7 @@ func (t *tfunc) call(v *ast.CallExpr, want types.Type) string {
 			case tu && !fu:
 				return fmt.Sprintf("GoInt.toU %d %s", uwidth(tb), paren(x))
 			case !tu && fu:
-				return "Int.ofNat " + paren(x)
+				return "(" + x + " : Int)"
 			default:
 				if uwidth(tb) >= uwidth(fb) {
 					return x
